@@ -45,7 +45,7 @@ def read_pil(text):
             t = toks[1:]
             params = None
             if t and t[0].startswith("["):
-                m = re.match(r"\[(\w+)\]\Z", t[0])
+                m = re.match(r"\[([^\[\]]+)\]\Z", t[0])
                 if not m:
                     raise PilSyntax(raw)
                 params = m.group(1); t = t[1:]
